@@ -3,25 +3,49 @@ import json, os
 import common as C
 from common import Failure, coq_list
 import oscgen as G
+import jetgen as J
 
 ID = "C01"
 GEN = ["gen_particle_tables"]
 ALLOWED_AXIOMS = []
-TRUSTED = ["Coq 8.16.1 kernel + vm_compute"]
-ASSUMPTIONS = []
+TRUSTED = [
+    "Coq 8.16.1 kernel + vm_compute (no native_compute); every theorem closed under the global context",
+    "translator tools/py2coq/gen_particle_tables.py: attribute_mapping, the float/int cast lists, the relaxed-column formats of Particle.__initialize_from_array and OscarLoader._set_custom_attr_list.attr_map as Coq tables",
+    "hand models coq/Model/Oscar.v, Jetscape.v of the loaders (token level: a line is line.split(' ') resp. tab/blank split), tied by this run's correspondence on generated files incl. tab- and blank-separated JETSCAPE headers and files without final newline",
+    "oracles (universally quantified functions in the theorems, tables computed by the harness in the correspondence): Python float()/int() on a token, PDGID.is_valid/charge, numpy sqrt",
+    "character level -> token level: substring tests on the raw line are modelled as token tests (blank-free patterns occur inside one token; ' p ' is an inner token) - validated by the correspondence, proved only for numeric tokens (Lib/StrLemmas.v)",
+    "Oscar2013Extended_IC / _Photons header scans are not modelled (outside the property's format list)",
+]
+ASSUMPTIONS = ["nearest-double parsing is Python's float(); the property oracle re-derives it independently as float(Fraction(token))",
+               "float rounding of the derived JETSCAPE mass is not modelled (compared within 1e-9)"]
+LEVEL_TEXT = ("Theorems (Coq, closed under the global context): for every well-formed Oscar2013/Extended/ASCII or JETSCAPE document "
+              "(any number of events >= 1, any multiplicities incl. empty events anywhere) the loader model returns exactly the document's "
+              "events and particle lines in order, counts, number of events, format, each event's own impact parameter / sigmaGen; "
+              "column tables regenerated from the source equal the documented layout; every listed column lands in its slot with its cast; "
+              "derived JETSCAPE mass/charge; lines of the documented shapes are classified correctly for any numeric tokens. "
+              "The loader models are run against the real readers on every run together with an independent re-parse oracle.")
+LEVEL_NOTE = ("Hand-written loader models at token level (tied by correspondence, not regenerated); tables regenerated; oracles for float()/int()/PDG/sqrt; "
+              "char-level substring semantics validated by correspondence and proved for numeric tokens only; GenerateFlow writers are exercised by read-back in the correspondence only.")
+TECHNIQUE = "Coq proof by induction over the events of a rendered document against an executable loader model; regenerated column tables; vm_compute correspondence with the real readers"
 
 PRELUDE = """From Coq Require Import List String ZArith QArith.
-From SX Require Import Lib.Strs Gen.GenParticleMap Model.Oscar.
+From SX Require Import Lib.Strs Gen.GenParticleMap Model.Oscar Model.Jetscape.
 Import ListNotations.
 Local Open Scope string_scope.
 """
 
 
 def run_case(ctx, case, idx):
-    path = os.path.join(ctx.work, f"f{idx}.oscar")
-    with open(path, "w") as f:
-        f.write(case["text"])
-    obs = G.observe_oscar(path)
+    if case["kind"] == "jet":
+        path = os.path.join(ctx.work, f"f{idx}.dat")
+        with open(path, "w") as f:
+            f.write(case["text"])
+        obs = J.observe(path, particletype=case["doc"]["ptype"])
+    else:
+        path = os.path.join(ctx.work, f"f{idx}.oscar")
+        with open(path, "w") as f:
+            f.write(case["text"])
+        obs = G.observe_oscar(path)
     os.remove(path)
     return obs
 
@@ -30,21 +54,33 @@ def coq_case(case, obs):
     lines = case["text"].split("\n")
     if lines and lines[-1] == "":
         lines = lines[:-1]
+    if case["kind"] == "jet":
+        tf, ti, pv, pc, sq = J.tables(lines)
+        word = "N_hadrons" if case["doc"]["ptype"] == "hadron" else "N_partons"
+        return (f"(check_jetscape (table {tf}) (table {ti}) (pvtable {pv}) (qtable {pc}) (qtable {sq}) "
+                f"{J.coq_file(lines)} {C.coq_str(word)} SelAll {J.coq_observed(obs)})")
     tf, ti = G.token_tables(lines)
     pv = G.pdg_table([l.split(" ") for l in lines])
     return (f"(check_oscar (table {tf}) (table {ti}) (pvtable {pv}) {G.coq_file(lines)} SelAll {G.coq_observed(obs)})")
+
+
+def gen_case(rng):
+    if rng.random() < 0.4:
+        d = J.gen_doc(rng)
+        return {"kind": "jet", "doc": d, "text": J.render(d)}
+    d = G.gen_doc(rng)
+    return {"kind": "oscar", "doc": d, "text": G.render(d)}
 
 
 def correspondence(ctx, model_ok=True):
     n = 200 if ctx.quick else 3000
     cases = []
     for i in range(n):
-        d = G.gen_doc(ctx.rng)
-        cases.append({"doc": d, "text": G.render(d)})
+        cases.append(gen_case(ctx.rng))
     obs = [run_case(ctx, c, i) for i, c in enumerate(cases)]
     out = {"evaluations": n, "distinct_nontrivial": len({c["text"] for c, o in zip(cases, obs) if "err" not in o}),
            "rule": "random well-formed docs", "samples": [cases[0]["text"][:400]], "failures": [], "broken": []}
-    ok, log = C.make(["Model/Oscar.vo"])
+    ok, log = C.make(["Model/Oscar.vo", "Model/Jetscape.vo"])
     if not ok:
         out["broken"].append({"what": "Model/Oscar.v does not build", "detail": log[-800:]})
         return out
@@ -65,15 +101,17 @@ def correspondence(ctx, model_ok=True):
     out["distribution"] = {"codes": dict(Counter(codes)), "impl_errors": dict(Counter(o.get("err", "ok") for o in obs))}
     for c, o, code in zip(cases, obs, codes):
         if code != 0:
-            out["failures"].append(Failure({"doc": c["doc"]}, f"model/impl disagree code {code}; impl={json.dumps(o)[:300]}"))
+            out["failures"].append(Failure({"kind": c["kind"], "doc": c["doc"]}, f"model/impl disagree code {code}; impl={json.dumps(o)[:300]}"))
     # the property oracle runs on every case as well (independent re-parse of the text)
     for c in cases:
         msg = oracle(c)
         if msg:
-            out["failures"].append(Failure({"doc": c["doc"]}, "property oracle", on_impl=msg))
+            out["failures"].append(Failure({"kind": c["kind"], "doc": c["doc"]}, "property oracle", on_impl=msg))
     return out
 
 
 def oracle(case):
     os.makedirs(os.path.join(C.VERIF, ".work"), exist_ok=True)
+    if case.get("kind") == "jet":
+        return J.oracle_load(case["doc"], os.path.join(C.VERIF, ".work"))
     return G.oracle_load(case["doc"], os.path.join(C.VERIF, ".work"))
